@@ -1007,12 +1007,21 @@ def _normalize_axes(axis, ndim: int) -> list[int]:
 
 
 def _integral_or_boolean(*xs) -> bool:
-    """Whether every operand (array or Python scalar) has an integer or boolean dtype."""
-    return all(
-        isinstance(dtype, (dtypes.Integral, dtypes.NullableIntegral))
-        or dtype in (dtypes.bool, dtypes.nbool)
-        for dtype in (ndx.asarray(x).dtype for x in xs)
-    )
+    """Whether every operand (array or Python scalar) has an integer or boolean dtype and
+    they promote to an integer or boolean dtype (int64 with uint64 does not)."""
+
+    def ok(dtype):
+        return isinstance(
+            dtype, (dtypes.Integral, dtypes.NullableIntegral)
+        ) or dtype in (dtypes.bool, dtypes.nbool)
+
+    if not all(ok(ndx.asarray(x).dtype) for x in xs):
+        return False
+    try:
+        # Python scalars adopt the array's dtype, so promote rather than result_type
+        return ok(promote(*xs)[0].dtype)
+    except (TypeError, ValueError):
+        return False
 
 
 def _constant_predicate(x: Array, value: bool) -> ndx.Array:
